@@ -120,3 +120,42 @@ Proof. exact lifetime_verdict_iff. Qed.
 Theorem C12_sealed : al_supertrait_unsigned arraylength_sealing = true /\
   al_arraytype_bound_sealed arraylength_sealing = true /\ sealed_is_private arraylength_sealing = true.
 Proof. exact sealed. Qed.
+
+(* ---- tie to the current source: regenerated on every run by tools/ga2coq (coq/gen/GenSigs.v) ----
+   the where-clauses and result lengths of the Lengthen / Shorten / Split / Concat / Remove /
+   Flatten / Unflatten impls, the fields and explicit Send / Sync / Copy / Clone impls (with
+   bounds) of the four structs, the sealing of ArrayLength and the tuple table, as they stand
+   in the source now, are the declarations the theorems above are about *)
+From Coq Require Import String.
+From GA Require Import SigTie.
+From GAGen Require Import GenSigs.
+Local Open Scope string_scope.
+
+Theorem C12_source_seq_impls :
+  gen_lengthen = [("owned", lengthen_where, [LAdd1 V0])] /\
+  gen_shorten = [("owned", shorten_where, [LSub1 V0])] /\
+  gen_split = [("owned", split_where, [V1; LDiff V0 V1]); ("ref", split_where, [V1; LDiff V0 V1]);
+               ("mut", split_where, [V1; LDiff V0 V1])] /\
+  gen_concat = [("owned", concat_where, [LSum V0 V1])] /\
+  gen_remove = [("owned", remove_where, [LSub1 V0])] /\
+  gen_flatten = [("owned", flatten_where, [LProd V0 V1]); ("ref", flatten_where, [LProd V0 V1]);
+                 ("mut", flatten_where, [LProd V0 V1])] /\
+  gen_unflatten = [("owned", unflatten_where, [LQuot V0 V1]); ("ref", unflatten_where, [LQuot V0 V1]);
+                   ("mut", unflatten_where, [LQuot V0 V1])].
+Proof.
+  exact (conj tie_lengthen (conj tie_shorten (conj tie_split (conj tie_concat
+        (conj tie_remove (conj tie_flatten tie_unflatten)))))).
+Qed.
+
+Theorem C12_source_structs : forall E t,
+  struct_has gen_even E t = struct_has (cs_even ga_structs) E t /\
+  struct_has gen_odd E t = struct_has (cs_odd ga_structs) E t /\
+  struct_has gen_ga E t = struct_has (cs_ga ga_structs) E t /\
+  struct_has gen_iter_struct E t = struct_has (cs_iter ga_structs) E t.
+Proof. exact tie_struct_has. Qed.
+
+Theorem C12_source_sealing : gen_sealing = arraylength_sealing.
+Proof. exact tie_sealing. Qed.
+
+Theorem C12_source_tuples : gen_tuple_sizes = tuple_sizes.
+Proof. exact tie_tuple_sizes. Qed.
